@@ -111,11 +111,27 @@ def check_history_independence(ctx, module_names: typing.Iterable[str], rule_ali
   b += shape.check_no_memo_decorators(ctx, fs, rule=rule_global)
   ctx.ok(rule_global, f"{len(names)} modules|no process-global state is written", "src/main/python/ttconv", f"{len(fs)} functions scanned; {a + b} tabled exceptions")
   shape.check_pure_queries(ctx, [c for c in ctx.ix.classes.values() if c.module.name in names], summary=True)
+  check_contradiction_lints(ctx, names)
+  return len(fs)
+
+
+def check_contradiction_lints(ctx, module_names: typing.Iterable[str]):
+  """The package-wide lints whose expected count is zero (each with a positive fixture): LINT-l, STATE-share, LOOP-break,
+  ITEM-source.  They state a contradiction inside the code, not a clause of a property; they are run on the modules a
+  property is anchored in because such a contradiction makes some clause of it false."""
+  from ..rules import shape
+  names = [n for n in dict.fromkeys(module_names) if n in ctx.ix.modules]
+  fs = [f for n in names for f in ctx.ix.funcs_in(n)]
   check_duplicates(ctx, names)
   ns = shape.check_no_shared_containers(ctx, fs)
   from ..selfcheck import state_share_fixture_matches
   ctx.check(state_share_fixture_matches(), "STATE-share", "fixture|a container field stored into another object uncopied is detected", "ttverif/fixtures/state_share.py",
             f"the rule still matches its positive fixture ({ns} assignments to container fields scanned)", "STATE-share no longer matches its positive fixture (rule broken)")
+  from ..rules import lint as _lint
+  from ..selfcheck import loop_break_fixture_matches
+  nb = _lint.bare_break_in_item_loop(ctx, fs)
+  ctx.check(loop_break_fixture_matches(), "LOOP-break", "fixture|a skip written as `break` is detected", "ttverif/fixtures/loop_break.py",
+            f"the rule still matches its positive fixture ({nb} bare `break` branches classified)", "LOOP-break no longer matches its positive fixture (rule broken)")
   ni = shape.check_item_sources(ctx, fs)
   from ..selfcheck import item_source_fixture_matches
   ctx.check(item_source_fixture_matches(), "ITEM-source", "fixture|a container-level value put into every item is detected", "ttverif/fixtures/item_source.py",
@@ -171,6 +187,38 @@ def check_known_none(ctx, module_names: typing.Iterable[str]):
   n = nul.check_known_none(ctx, funcs(ctx, [m for m in module_names if m in ctx.ix.modules]))
   ctx.check(nul_known_fixture_matches(), "NUL-known", "fixture|a dereference of a local known to be None is detected", "ttverif/fixtures/nul_known.py",
             f"the rule still matches its positive fixture ({n} None tests on locals followed)", "NUL-known no longer matches its positive fixture (rule broken)")
+  return n
+
+
+def check_regexes(ctx, module_names: typing.Iterable[str], whole=True, floor=1):
+  """REGEX-whole (optional) and LINT-m on the compiled pattern constants of the given modules."""
+  from ..rules import regexrules
+  ms = mods(ctx, [m for m in module_names if m in ctx.ix.modules])
+  n = 0
+  if whole:
+    n = regexrules.check_whole_value(ctx, ms)
+    ctx.floor("REGEX-whole", "`.match` uses of compiled pattern constants", n, floor)
+  k = regexrules.check_bare_dot_alternative(ctx, ms)
+  ctx.ok("LINT-m", f"{len(ms)} modules|no alternation lists literals beside an unescaped `.`", "src/main/python/ttconv", f"{k} compiled patterns parsed")
+  return n
+
+
+def check_parsed_divisors(ctx, module_names: typing.Iterable[str], floor=1):
+  """DIV-parsed on the given modules."""
+  from ..rules import divrules
+  names = [m for m in module_names if m in ctx.ix.modules]
+  n = divrules.check_parsed_divisors(ctx, funcs(ctx, names), [c for c in ctx.ix.classes.values() if c.module.name in names])
+  ctx.floor("DIV-parsed", "divisions by a field of a reader class", n, floor)
+  return n
+
+
+def check_regex_probes(ctx, module_names: typing.Iterable[str], floor=1):
+  """FIN-regex: the probe table of oracles/regex_probes.py on the patterns of the given modules."""
+  from ..rules import regexrules
+  from ..oracles.regex_probes import PROBES
+  n = regexrules.check_probes(ctx, [m for m in module_names if m in ctx.ix.modules], PROBES)
+  ctx.floor("FIN-regex", "patterns with a probe table", n, floor)
+  ctx.extra["finite_domain_evaluations"] = ctx.extra.get("finite_domain_evaluations", 0) + n
   return n
 
 
